@@ -224,8 +224,9 @@ func (c *Ctx) newShapePtr(sh *PtrShape, prefix string) Term {
 	if sh.Kind == pObj && sh.Off == 0 && types.Identical(sh.Root, sh.Typ) {
 		return sh.Ref
 	}
+	// interior pointers get negative identities: never nil, never equal to an object reference
 	p := c.fresh(prefix, SInt)
-	c.assert(Gt(p, IntLit(0)))
+	c.assert(Lt(p, IntLit(0)))
 	c.shapes[p.S] = sh
 	return p
 }
